@@ -121,25 +121,37 @@ def _chk_c12(model, xs, cs, key):
                 d = jnp.maximum(d, _maxdiff(a, b))
     out["idem_diff"] = d
     # every method: same result on the wrapped and on the caller-unwrapped model
-    has_lp = True
-    try:
-        out["lp_diff"] = _maxdiff(model.log_prob(xs, cs), um.log_prob(xs, cs))
-    except NotImplementedError:  # sampling-only model (tanh planar, not inverted)
-        has_lp = False
-    try:
-        c1 = None if cs is None else cs[0]
-        s1, s2 = model.sample(key, (2,), c1), um.sample(key, (2,), c1)
-        out["sample_diff"] = _maxdiff(s1, s2)
-        (a1, b1), (a2, b2) = model.sample_and_log_prob(key, (2,), c1), um.sample_and_log_prob(key, (2,), c1)
-        out["salp_diff"] = jnp.maximum(_maxdiff(a1, a2), _maxdiff(b1, b2))
-    except NotImplementedError:
-        pass
+    # (a model holding a BlockAutoregressiveNetwork is only evaluated in its analytic direction: the other one
+    # runs the bisection inverter, which need not terminate once a fault has flattened the network)
+    from flowjax import bijections as _B
+
+    has_bnaf = any(isinstance(n, _B.BlockAutoregressiveNetwork) for n in jax.tree_util.tree_leaves(um, is_leaf=lambda n: isinstance(n, _B.BlockAutoregressiveNetwork)))
+    lp_dir = (not has_bnaf) or isinstance(getattr(um, "bijection", None), _B.Invert)
+    sample_dir = (not has_bnaf) or not lp_dir
+    has_lp = lp_dir
+    if lp_dir:
+        try:
+            out["lp_diff"] = _maxdiff(model.log_prob(xs, cs), um.log_prob(xs, cs))
+        except NotImplementedError:  # sampling-only model (tanh planar, not inverted)
+            has_lp = False
+    if sample_dir:
+        try:
+            c1 = None if cs is None else cs[0]
+            s1, s2 = model.sample(key, (2,), c1), um.sample(key, (2,), c1)
+            out["sample_diff"] = _maxdiff(s1, s2)
+            (a1, b1), (a2, b2) = model.sample_and_log_prob(key, (2,), c1), um.sample_and_log_prob(key, (2,), c1)
+            out["salp_diff"] = jnp.maximum(_maxdiff(a1, a2), _maxdiff(b1, b2))
+        except NotImplementedError:
+            pass
     bij_w, bij_u = getattr(model, "bijection", None), getattr(um, "bijection", None)
     if bij_w is not None and hasattr(bij_w, "transform_and_log_det") and hasattr(bij_u, "transform_and_log_det"):
         x1 = xs[0]
         c1 = None if cs is None else cs[0]
         dd = jnp.zeros(())
-        for meth in ("transform", "inverse", "transform_and_log_det", "inverse_and_log_det"):
+        meths = ("transform", "inverse", "transform_and_log_det", "inverse_and_log_det")
+        if has_bnaf:
+            meths = ("inverse", "inverse_and_log_det") if lp_dir else ("transform", "transform_and_log_det")
+        for meth in meths:
             try:
                 r1, r2 = getattr(bij_w, meth)(x1, c1), getattr(bij_u, meth)(x1, c1)
             except NotImplementedError:
@@ -229,7 +241,8 @@ def _walk(node, nb, out, depth=0):
 
     if depth > 40:
         return
-    typed = (B.Affine, B.Scale, B.TriangularAffine, B.RationalQuadraticSpline, Planar, B.Coupling, B.MaskedAutoregressive, D.VmapMixture)
+    typed = (B.Affine, B.Scale, B.TriangularAffine, B.RationalQuadraticSpline, Planar, B.Coupling, B.MaskedAutoregressive, D.VmapMixture,
+             B.BlockAutoregressiveNetwork)
     std_t = getattr(D, "_StandardStudentT", ())
     if isinstance(node, B.Scan):
         _walk(node.bijection, nb + 1, out, depth + 1)
@@ -352,6 +365,35 @@ def _chk_c11(model, xs, cs, key):
     acc = {}
     c_probe = None if cs is None else cs
 
+    # weight-normalised rows keep their norm parameter: walk the WRAPPED model for WeightNormalization nodes
+    from flowjax.wrappers import WeightNormalization
+
+    is_wn = lambda n: isinstance(n, WeightNormalization)  # noqa: E731
+    n_wn = 0
+    for wn in jax.tree_util.tree_leaves(model, is_leaf=is_wn):
+        if not is_wn(wn):
+            continue
+        n_wn += 1
+        w, g, inner = unwrap(wn), unwrap(wn.scale), unwrap(wn.weight)
+        def rownorm(a):  # scaled, so that squaring tiny entries (|a| < 1e-19) does not underflow in the MEASUREMENT
+            m = jnp.max(jnp.abs(a), axis=-1, keepdims=True)
+            return m * jnp.linalg.norm(a / jnp.where(m > 0, m, 1.0), axis=-1, keepdims=True)
+
+        rn = rownorm(w)
+        inn = rownorm(inner)
+        g = jnp.broadcast_to(g, rn.shape)
+        rel = jnp.where(inn >= 1e-12, jnp.abs(rn - g) / jnp.maximum(g, 1e-30), 0.0)
+        rel = jnp.where(jnp.isnan(rel), jnp.inf, rel)
+        # smallest strictly positive entry of the normalised matrix in exact arithmetic: g * w_ij / ||w_i|| (a product of
+        # two softplus-positive numbers: it can leave float32 range although neither factor does)
+        minpos = jnp.min(jnp.where(inner > 0, inner, jnp.inf), axis=-1, keepdims=True)
+        margin = jnp.min(jnp.where(jnp.isfinite(minpos), g * (minpos / jnp.maximum(inn, 1e-30)), jnp.inf))
+        for k, v, red in (("wn_norm_relerr_absmax", jnp.max(rel), "max"), ("wn_scale_min", jnp.min(jnp.where(jnp.isnan(g), -jnp.inf, g)), "min"),
+                          ("wn_inner_rownorm_min", jnp.min(jnp.where(jnp.isnan(inn), -jnp.inf, inn)), "min"),
+                          ("wn_min_positive_entry", jnp.where(jnp.isnan(margin), -jnp.inf, margin), "min")):
+            acc[k] = (jnp.maximum(acc[k], v) if red == "max" else jnp.minimum(acc[k], v)) if k in acc else v
+    acc["n_wn_nodes"] = jnp.asarray(n_wn)
+
     def merge(d, red_of=None):
         for k, v in d.items():
             red = "max" if k.endswith("absmax") or k.endswith("end_err") else "min"
@@ -408,6 +450,8 @@ def _chk_c11(model, xs, cs, key):
                 return {"layer_diag_min": jnp.stack(js)}
 
             merge(_vm(per_j, nb)(node))
+        elif isinstance(node, B.BlockAutoregressiveNetwork):
+            continue  # its constrained parts are the weight-normalised matrices handled above
         else:
             d = {}
             _typed_constraints(node, d)
@@ -479,6 +523,34 @@ def _chk_c09(model, xs, cs, key):
                 return {"coupling_first_block_changed": jnp.stack(ident), "coupling_offdiag_absmax": jnp.concatenate([jnp.ravel(o) for o in off])}
 
             merge(_vm(per, nb)(node))
+        elif isinstance(node, B.BlockAutoregressiveNetwork):
+            n_layers["bnaf"] = n_layers.get("bnaf", 0) + 1
+            dim = node.shape[-1]
+
+            def per(layer):
+                up, neg, nonpos = [], [], []
+                for i in range(xs.shape[0]):
+                    ci = None if cs is None else cs[i]
+                    J = jax.jacobian(lambda x: layer.transform(x, ci))(xs[i])
+                    up.append(jnp.triu(J, k=1))
+                    dg = jnp.diagonal(J)
+                    neg.append(jnp.where(dg < 0, 1.0, jnp.where(jnp.isnan(dg), jnp.nan, 0.0)))
+                    nonpos.append(jnp.where(dg <= 0, 1.0, jnp.where(jnp.isnan(dg), jnp.nan, 0.0)))
+                # precondition ingredient for 'strictly positive in float32': the smallest diagonal-block weight
+                wmins = []
+                for lin, _f in layer.layers:
+                    w = lin.weight
+                    bs = (w.shape[-2] // dim, w.shape[-1] // dim)
+                    dmask = np.kron(np.eye(dim, dtype=bool), np.ones(bs, dtype=bool))
+                    wmins.append(jnp.min(jnp.where(dmask, w, jnp.inf)))
+                return {"bnaf_upper_absmax": jnp.stack(up), "bnaf_neg_diag": jnp.stack(neg), "bnaf_nonpos_diag": jnp.stack(nonpos),
+                        "_bnaf_diagw_min": jnp.min(jnp.stack(wmins))}
+
+            rr = _vm(per, nb)(node)
+            dwm = jnp.min(rr.pop("_bnaf_diagw_min"))
+            acc["bnaf_diagw_min"] = jnp.minimum(acc["bnaf_diagw_min"], dwm) if "bnaf_diagw_min" in acc else dwm
+            merge(rr)
+    acc["n_bnaf_nodes"] = jnp.asarray(n_layers.get("bnaf", 0))
     acc["n_maf_nodes"] = jnp.asarray(n_layers["maf"])
     acc["n_coupling_nodes"] = jnp.asarray(n_layers["coupling"])
     return acc
@@ -550,6 +622,21 @@ def _chk_c09_pos(model, xs, cs, key):
                         out.setdefault("coupling_cond_dep_min", []).append(jax.jacobian(params_of, argnums=1)(xp[i][:d], ci))
                         out.setdefault("layer_transform_cond_dep_min", []).append(jax.jacobian(lambda c: layer.transform(xp[i], c))(ci)[d:])
                     out.setdefault("layer_transform_block_dep_min", []).append(jax.jacobian(lambda x: layer.transform(x, ci))(xp[i])[d:, :d])
+                return {k: jnp.stack(v) for k, v in out.items()}
+
+            merge(_vm(per, nb)(node))
+        elif isinstance(node, B.BlockAutoregressiveNetwork):
+            dim = node.shape[-1]
+
+            def per(layer):
+                out = {}
+                for i in range(xp.shape[0]):
+                    ci = None if cp is None else cp[i]
+                    J = jax.jacobian(lambda x: layer.transform(x, ci))(xp[i])
+                    lower = jnp.arange(dim)[None, :] < jnp.arange(dim)[:, None]
+                    out.setdefault("bnaf_lower_dep_min", []).append(jnp.where(lower, J, jnp.inf))
+                    if ci is not None:
+                        out.setdefault("bnaf_cond_dep_min", []).append(jax.jacobian(lambda c: layer.transform(xp[i], c))(ci))
                 return {k: jnp.stack(v) for k, v in out.items()}
 
             merge(_vm(per, nb)(node))
@@ -796,6 +883,8 @@ C11_RULES = [
     ("spline_x_end_err", lambda v: v == 0, "spline x knots do not start/end exactly at the interval ends"),
     ("spline_y_end_err", lambda v: v == 0, "spline y knots do not start/end exactly at the interval ends"),
     ("spline_deriv_margin", lambda v: v >= 0, "a spline derivative is below min_derivative"),
+    ("wn_norm_relerr_absmax", lambda v: v <= 1e-4, "a weight-normalised row's norm differs from its norm parameter (relative error > 1e-4)"),
+    ("wn_scale_min", lambda v: v > 0, "a weight-normalisation norm parameter is not strictly positive"),
 ]
 
 
@@ -823,9 +912,21 @@ def oracle_c11(world, result):
             continue
         # any other exception here is trouble in this checker (training already ran the model): it propagates
         # to the worker, which reports a HARNESS-ERROR, never a violation
+        if "wn_inner_rownorm_min" in r and not float(r["wn_inner_rownorm_min"]) >= 1e-15:
+            # a row whose raw norm underflows when squared in float32 (softplus(raw) < 1e-15, i.e. raw < -34 in a
+            # single-entry row): the quotient w/||w|| is not representable; outside what float32 can decide
+            P["vacuous_wn_rownorm_underflow"] = P.get("vacuous_wn_rownorm_underflow", 0) + 1
+            n_vac += 1
+            continue
         n_checked += 1
+        P["wn_nodes_checked"] = P.get("wn_nodes_checked", 0) + int(r.get("n_wn_nodes", 0))
         seen_keys.update(r.keys())
         for key, ok, msg in C11_RULES:
+            if key == "tri_diag_min" and "wn_min_positive_entry" in r and not float(r["wn_min_positive_entry"]) >= 1e-30:
+                # a weight-normalised triangular matrix: its diagonal is g * softplus(raw) / ||row||, a product of two
+                # softplus-positive numbers that is below float32 range here although each factor is inside the raw box
+                P["vacuous_wn_product_underflow"] = P.get("vacuous_wn_product_underflow", 0) + 1
+                continue
             if key in r and not ok(float(r[key])):
                 V.append({"clause": "c11." + key, "detail": f"{label}: {msg} (value {float(r[key])!r})"})
         if default_affine and "scale_min" in r and float(r["scale_min"]) < 1e-2 * (1 - 1e-6):
@@ -892,6 +993,21 @@ def oracle_c09(world, result):
             V.append({"clause": "c09.coupling_first_block_changed", "detail": f"{label}: a coupling layer did not return its first block unchanged"})
         if "coupling_offdiag_absmax" in r and float(r["coupling_offdiag_absmax"]) != 0.0:
             V.append({"clause": "c09.coupling_cross_dependency", "detail": f"{label}: a transformed coordinate depends on another transformed coordinate (|d| = {float(r['coupling_offdiag_absmax'])})"})
+        P["bnaf_nodes"] = int(r.get("n_bnaf_nodes", 0))
+        if "bnaf_upper_absmax" in r:
+            if float(r["bnaf_upper_absmax"]) != 0.0:
+                V.append({"clause": "c09.bnaf_output_depends_on_later_input", "detail": f"{label}: d y_i / d x_j = {float(r['bnaf_upper_absmax'])} for some j > i in a block autoregressive network"})
+            if float(r["bnaf_neg_diag"]) != 0.0:
+                V.append({"clause": "c09.bnaf_diagonal_not_positive", "detail": f"{label}: a diagonal Jacobian entry d y_i / d x_i of a block autoregressive network is negative"})
+            # 'strictly positive' is decidable in float32 only while the product of diagonal-block weights and activation
+            # slopes over the layers stays representable: every diagonal-block weight >= 1e-6, unbounded activation
+            strict_ok = float(r.get("bnaf_diagw_min", 0.0)) >= 1e-6 and world["model"].get("activation") != "tanh"
+            if strict_ok:
+                P["bnaf_strict_diag_states"] = P.get("bnaf_strict_diag_states", 0) + 1
+                if float(r["bnaf_nonpos_diag"]) != 0.0:
+                    V.append({"clause": "c09.bnaf_diagonal_not_positive", "detail": f"{label}: a diagonal Jacobian entry of a block autoregressive network is zero although every diagonal-block weight is >= {float(r['bnaf_diagw_min']):.3g}"})
+            else:
+                P["vacuous_bnaf_diag_underflow"] = P.get("vacuous_bnaf_diag_underflow", 0) + 1
         if label in pos_labels and not V:
             rp = _run_check("c09pos", _chk_c09_pos, model, xs, cs, world["key_seed"])
             P["all_positive_states_checked"] = P.get("all_positive_states_checked", 0) + 1
@@ -906,6 +1022,12 @@ def oracle_c09(world, result):
                 for k, what in (("layer_transform_cond_dep_min", "a condition coordinate"), ("layer_transform_block_dep_min", "a first-block coordinate")):
                     if k in rp and not float(rp[k]) > 0:
                         V.append({"clause": "c09.transform_dependency_missing", "detail": f"{label}: with all-positive weights and an affine-type transformer, a transformed output of layer.transform does not depend on {what} (min derivative {float(rp[k])})"})
+            if m.get("activation") != "tanh":
+                for k, what in (("bnaf_lower_dep_min", "an earlier input x_j, j < i"), ("bnaf_cond_dep_min", "a condition coordinate")):
+                    if k == "bnaf_cond_dep_min" and m.get("depth", 1) == 0:
+                        continue  # no hidden layer for the condition to enter (the statement promises nothing there)
+                    if k in rp and not float(rp[k]) > 0:
+                        V.append({"clause": "c09.bnaf_dependency_missing", "detail": f"{label}: with all-positive weights an output of a block autoregressive network does not depend on {what} (min derivative {float(rp[k])})"})
             for k, what in (("coupling_block_dep_min", "a first-block coordinate"), ("coupling_cond_dep_min", "a condition coordinate")):
                 if k in rp and not float(rp[k]) > 0:
                     V.append({"clause": "c09.coupling_dependency_missing", "detail": f"{label}: with all-positive weights a transformer parameter of a coupling layer does not depend on {what} (min derivative {float(rp[k])})"})
